@@ -166,8 +166,8 @@ def check_update(fx, R, fu, ft):
         tag = ('full' if st in full else 'filling') + str(n)
         inst = 'RateMonitoring::update:' + tag
         q = st.fields.get(fld('periods_'))
-        S0 = sp.Symbol('this.periodsSum_', integer=True)
         S1 = st.fields.get(fld('periodsSum_'))
+        S0 = next((y_ for y_ in (S1.free_symbols if isinstance(S1, sp.Basic) else []) if y_.name == 'this.periodsSum_'), sp.Symbol('this.periodsSum_', integer=True))     # the reader's own symbol (its assumptions follow the field's type)
         last0 = sp.Symbol('this.lastDuration_.value_', real=True)
         stamp = [s for s in (S1.free_symbols if isinstance(S1, sp.Basic) else []) if s.name == 'arg:duration']
         if not isinstance(q, sym.Cont) or not stamp or S1 is None:
@@ -208,6 +208,24 @@ def check_update(fx, R, fu, ft):
         want_ret = rate1 if rate_written else sp.Symbol('this.rate_', real=True)
         R.check(st.ret is not None and sp.simplify(st.ret - want_ret) == 0, 'M2', inst + ':return', 'update() returns %s, not the current rate %s' % (st.ret, want_ret),
                 'returns the current rate', fx.rel(fu['loc']), 'E-STATE')
+    # the running sum: a fact about its TYPE.  It is updated by += period and -= oldest period over the whole life of the monitor; only in an integer type do the amounts added and removed cancel exactly.
+    # The first period queued is the first stamp minus the initial last stamp (0): for an epoch-based clock it is about 1.7e18 ns, far beyond the 2^53 a double holds exactly
+    rec = fx.records.get(Q.rstrip(':') if Q.endswith('::') and False else 'romea::core::RateMonitoring') or {}
+    ft_ = next((f_ for f_ in rec.get('fields', []) if f_['name'] == 'periodsSum_'), None)
+    if ft_ is not None:
+        ty = ft_.get('t') or {}
+        if ty.get('c') == 'fp':
+            R.violated('M2', 'RateMonitoring:running-sum:floating', 'the running sum of the periods is a `%s`, updated by `+= period` and `-= oldest period` for the life of the monitor.  The first period queued is the '
+                       'first stamp minus the initial last stamp 0, i.e. the stamp itself: with an epoch-based clock (1.7e18 ns; anything beyond 2^53 ns = 104 days) every addition made while that entry is in the window '
+                       'is rounded to a multiple of 256 ns, and when the entry is removed the roundings stay in the sum for good - every later rate is W over a time span that is off by that bias, not "exactly W divided '
+                       'by the time spanned by the last W periods" (an integer sum cancels exactly; stamps are not bounded by the quantifier, only periods are)' % ty.get('s'), fx.rel(fu['loc']), 'E-INT')
+        elif ty.get('c') == 'int' and int(ty.get('bits') or 64) < 64:
+            R.violated('M2', 'RateMonitoring:running-sum:width', 'the running sum of the periods is a `%s` (%s bits): 64 periods of up to 10 s are 6.4e11 ns, and the first period queued is the first stamp itself' % (
+                ty.get('s'), ty.get('bits')), fx.rel(fu['loc']), 'E-INT')
+        elif ty.get('c') == 'int':
+            R.holds('M2', 'RateMonitoring:running-sum:type', 'the running sum is a %s-bit integer: additions and removals cancel exactly' % ty.get('bits'), fx.rel(fu['loc']), 'E-INT')
+        else:
+            R.undecided('M2', 'RateMonitoring:running-sum:type', 'the running sum has type %s' % ty.get('s'))
     fg = fx.one(Q + 'getRate')
     sg = sym.Reader(fx).run(fg)
     R.form(len(sg) == 1 and isinstance(sg[0].ret, sp.Symbol) and sg[0].ret.name == 'this.rate_', 'M2', 'RateMonitoring::getRate', 'getRate returns %s' % [s.ret for s in sg],
@@ -431,7 +449,8 @@ def check_timeout(fx, R, ft, cst):
     ieee_bad, ieee_n, ieee_err = None, 0, None
     starts = [7500000000 + 1702 * k_ for k_ in range(0, 1500)] + [10 ** 12 + 7 + 977 * k_ for k_ in range(200)] + [4999 * 10 ** 9 + 13 * k_ for k_ in range(200)]
     for t0 in starts:
-        for el, want_ in ((499999999, False), (500000000, False), (500000001, True)):
+        # ... and heartbeats stamped BEFORE the last data stamp (a timer that sampled its clock just before the data callback ran; the interleaving is free): not "more than 0.5 s after"
+        for el, want_ in ((499999999, False), (500000000, False), (500000001, True)) + (((-1, False), (-2000000, False), (-3000000000, False)) if t0 in starts[:3] else ()):
             env_ = {pn_: t0 + el, 'this.lastDuration_': t0, 'this.hasData_': True, 'this.rate_': 1.0}
             try:
                 got_ = S_.call(ft['body'], env_)
@@ -446,6 +465,10 @@ def check_timeout(fx, R, ft, cst):
     if ieee_err:
         if not other:
             R.undecided('M3', 'RateMonitoring::timeout:ieee', 'timeout() is not steppable in IEEE arithmetic: %s' % ieee_err)
+    elif ieee_bad and ieee_bad[1] < 0:
+        R.violated('M3', 'RateMonitoring::timeout:earlier-heartbeat', 'stepping timeout(): with the last stamp at %d ns a heartbeat stamped %d ns BEFORE it (the interleaving of heartbeats and data is free: a timer that '
+                   'sampled its clock just before the data callback ran) reports a timeout and zeroes the rate - the check-up turns STALE while data are flowing.  Such a heartbeat is not "more than 0.5 s after the last '
+                   'stamp", it must change nothing; the elapsed time is held in an unsigned quantity, where a negative difference is a huge positive one' % (ieee_bad[0], -ieee_bad[1]), fx.rel(ft['loc']), 'E-STEP')
     elif ieee_bad:
         R.violated('M3', 'RateMonitoring::timeout:rounded-elapsed', 'stepping timeout() in IEEE double arithmetic: with the last stamp at %d ns a heartbeat exactly %d ns later %s a timeout (the statement: more than 0.5 s, '
                    'and earlier heartbeats change nothing).  The elapsed time is not the conversion of the exact integer difference of the two stamps: converting each absolute stamp to seconds first and subtracting '
